@@ -21,17 +21,23 @@ Section ListCodec.
       rewrite IH. unfold padded. cbn [app]. rewrite app_nil_r. reflexivity.
   Qed.
 
-  (* C09 for []string fields: any non-empty list of elements that contain no delimiter and no
-     leading/trailing stripped byte survives Marshal -> Unmarshal *)
-  Theorem C09_list_roundtrip es : es <> [] -> Forall (elt_ok d strip) es ->
+  (* C09 for []string fields: EVERY list of elements that contain no delimiter and no leading/trailing stripped byte survives
+     Marshal -> Unmarshal - the empty list included (an empty value has no elements: repair of the r12 finding, before which
+     this theorem needed es <> []) - except the one list that is written like the empty list: a single empty element *)
+  Theorem C09_list_roundtrip es : es <> [[]] -> Forall (elt_ok d strip) es ->
     decode_list d strip (marshal_list es) = es.
   Proof.
-    intros NE W. unfold marshal_list. rewrite <- render_plain.
+    intros NS W. destruct es as [|e0 r0]; [reflexivity|].
+    unfold marshal_list. rewrite <- render_plain.
     rewrite (C10_list_field d strip d_not_strip).
     - rewrite map_map. cbn [fst snd]. apply map_id.
-    - destruct es; [congruence|discriminate].
+    - discriminate.
     - apply Forall_map. eapply Forall_impl; [|exact W]. intros e He. cbn.
       split; [split; constructor|split; [split; constructor|exact He]].
+    - rewrite render_plain. destruct r0 as [|e1 r1].
+      + cbn [join]. destruct e0 as [|c0 t0]; [congruence|]. inversion W as [|? ? [Hf Hl Ht] _]; subst.
+        apply (trim_ne_of_mem strip (c0 :: t0) c0); [now left|]. exact Hl.
+      + apply (trim_ne_of_mem strip _ d); [|exact d_not_strip]. cbn [join]. apply in_or_app. right. now left.
   Qed.
 
   (* the empty list marshals to the empty string, which an optional field omits *)
